@@ -231,6 +231,14 @@ func c07DbusOracle(c C07Dbus, useRef bool) error {
 	setTarget(Target{Dist: "arch", ABI: 4, Version: 4.1})
 	text := c.Text()
 	out, err := runDirectives("/verif-nonexistent/apparmor.d/foo", text)
+	// the same directive expands to the same text on every call (the arguments are kept in a map)
+	for rep := 0; rep < 5 && err == nil; rep++ {
+		again, aerr := runDirectives("/verif-nonexistent/apparmor.d/foo", text)
+		if aerr == nil && again != out {
+			c07mu.Unlock()
+			return fmt.Errorf("the same dbus directive expands differently on a later call in the same process\n--- first\n%s--- later\n%s", out, again)
+		}
+	}
 	c07mu.Unlock()
 	if err != nil {
 		return fmt.Errorf("directive.Run fails: %v\n%s", err, text)
@@ -473,12 +481,12 @@ func (s C07Set) hostText() string {
 	return C07Profile{Name: "host", Exec: []string{"@{bin}/host"}, Body: s.Host}.Text()
 }
 
-var c07ExecValues = []string{"@{bin}/foo", "@{lib}/foo/bar", "@{lib}/@{multiarch}/{,libexec/}baz", "/opt/x/{a,b}", "@{bin}/q*", "@{lib}/{,kf6/}w", "/usr/share/z/run"}
+var c07ExecValues = []string{"@{bin}/foo", "@{bin}/Foo", "@{lib}/foo/bar", "@{lib}/Foo/bar", "@{lib}/@{multiarch}/{,libexec/}baz", "/opt/x/{a,b}", "@{bin}/q*", "@{lib}/{,kf6/}w", "/usr/share/z/run"}
 var c07BodyLines = []string{
 	"  include <abstractions/consoles>", "  capability sys_admin,", "  network inet stream,", "  unix,", "  unix (send receive) type=stream,",
 	"  signal (receive) set=(term) peer=foo,", "  @{bin}/ls rix,", "  @{bin}/man rPx,", "  @{lib}/helper rPx -> child-open,", "  owner @{HOME}/.cache/x rw,",
 	"  /etc/foo r,", "  /etc/mux, r,", "  dbus send bus=session path=/org/x\n       interface=org.x\n       member=Fox,", "  # a comment", "",
-	"  deny @{bin}/su x,", "  audit /usr/bin/tool rCx -> tool,", "  @{sys}/devices/** r,", "  ptrace (read) peer=unconfined,",
+	"  userns,", "  mqueue r type=posix /q,", "  deny @{bin}/su x,", "  audit /usr/bin/tool rCx -> tool,", "  @{sys}/devices/** r,", "  ptrace (read) peer=unconfined,",
 }
 
 func genC07Set(t *rapid.T, kind string) C07Set {
@@ -866,6 +874,10 @@ func TestC07_Replay(t *testing.T) {
 		var s C07Set
 		json.Unmarshal(rf.Case, &s)
 		oerr = c07StackOracle(s)
+	case "several":
+		var c C07Several
+		json.Unmarshal(rf.Case, &c)
+		oerr = c07SeveralOracle(c)
 	case "leftovers":
 		var w struct {
 			Cell Config `json:"cell"`
